@@ -19,7 +19,7 @@ from hypothesis import strategies as st
 from vf import prog, members
 
 PROP = "C09"
-CASES = {"quick": 12000, "thorough": 200000}
+CASES = {"quick": 12000, "thorough": 800000}
 RULE = ("family in 14 method families x parameters from a small grid inside the documented range (so that each bound is "
         "computed once per shard and reused) x real member (seeded) x dimension 1-4 x starting point.  Non-trivial = real "
         "performance >= 50% of the bound; distinct by case JSON.")
